@@ -27,9 +27,15 @@ func dirName(d session.Direction) string {
 }
 
 type S struct {
-	s     *session.MemorySession
-	ref   map[session.Direction]map[packet.ID]string // the property's own spec: a map id -> last packet
-	trace []string
+	s        *session.MemorySession
+	ref      map[session.Direction]map[packet.ID]string // the property's own spec: a map id -> last packet
+	trace    []string
+	listings []listing // earlier AllPackets results, still held by their caller
+}
+
+type listing struct {
+	live []packet.Generic
+	then string
 }
 
 func newS() *S {
@@ -86,8 +92,36 @@ func (x *S) del(d session.Direction, id packet.ID) {
 	w.Count("store/delete")
 }
 
+// a listing is a value: what was returned earlier does not change when the store is used again
+func (x *S) checkListings() {
+	for _, l := range x.listings {
+		var now []string
+		for _, p := range l.live {
+			if p == nil {
+				now = append(now, "<nil>")
+			} else {
+				now = append(now, wire.ShowPacket(p))
+			}
+		}
+		if strings.Join(now, " | ") != l.then {
+			x.hit("listing-altered", fmt.Sprintf("a listing returned earlier as [%s] now reads [%s]", l.then, strings.Join(now, " | ")))
+		}
+	}
+	x.listings = nil
+}
+
 func (x *S) all(d session.Direction) {
+	x.checkListings()
 	ps, _ := x.s.AllPackets(d)
+	{
+		var then []string
+		for _, p := range ps {
+			then = append(then, wire.ShowPacket(p))
+		}
+		if len(ps) > 0 {
+			x.listings = append(x.listings, listing{ps, strings.Join(then, " | ")})
+		}
+	}
 	var ss []string
 	seen := map[string]bool{}
 	for _, p := range ps {
